@@ -21,6 +21,23 @@ theorem new_canon (a b : Int) (hb : b ≠ 0) :
     ∃ r, new none a b = .ok r ∧ Canon r ∧ toRat r = Rat.divInt a b :=
   ⟨_, new_none a b hb, canon_ofRat _, toRat_ofRat _⟩
 
+/-- `new_int n` (the constructor that skips normalisation) is canonical, denotes the integer `n`, and is the very
+    value `new n 1` builds — so `==`, `cmp` and `Hash` cannot tell the two constructors apart. -/
+theorem newInt_canon (n : Int) :
+    Canon (newInt n) ∧ toRat (newInt n) = (n : Rat) ∧ new none n 1 = .ok (newInt n) := by
+  have hc : Canon (newInt n) := ⟨show (0 : Int) < 1 by decide, Int.gcd_one_right n⟩
+  have hv : toRat (newInt n) = (n : Rat) := by
+    show Rat.divInt n 1 = (n : Rat)
+    rw [Rat.divInt_eq_div]; simp
+  refine ⟨hc, hv, ?_⟩
+  rw [new_none n 1 (by decide), eq_ofRat_of_canon _ hc]
+  rfl
+
+/-- What the driver prints as `M` for `newint` equals what it prints as `S`. -/
+theorem newInt_machine (n : Int) : newInt n = ofRat (n : Rat) := by
+  obtain ⟨hc, hv, _⟩ := newInt_canon n
+  rw [eq_ofRat_of_canon _ hc, hv]
+
 /-- `+`: exact sum, canonical result. -/
 theorem add_spec (x y : Q) (hx : Canon x) (hy : Canon y) :
     ∃ r, add none x y = .ok r ∧ Canon r ∧ toRat r = toRat x + toRat y :=
@@ -235,6 +252,9 @@ theorem ceil_machine (t : IntTy) (ht : Roomy t) (a b : Int) (hb0 : b ≠ 0)
 /-! ### Non-vacuity: the hypotheses are satisfiable by concrete, non-trivial states -/
 
 example : Canon ⟨-3, 4⟩ := by decide
+example : Canon (newInt (-7)) ∧ toRat (newInt (-7)) = ((-7 : Int) : Rat) ∧ new none (-7) 1 = .ok (newInt (-7)) :=
+  newInt_canon (-7)
+example : newInt (2 ^ 30) = ofRat ((2 ^ 30 : Int) : Rat) := newInt_machine _
 example : new none 6 (-8) = .ok ⟨-3, 4⟩ := by rw [new_none _ _ (by decide)]; decide +kernel
 example : ∃ r, new none 6 (-8) = .ok r ∧ Canon r ∧ toRat r = Rat.divInt 6 (-8) := new_canon 6 (-8) (by decide)
 example : add none ⟨7, 10⟩ ⟨5, 6⟩ = .ok ⟨23, 15⟩ := by rw [add_none _ _ (by decide) (by decide)]; decide +kernel
